@@ -42,4 +42,18 @@ mod tests {
         assert_eq!(index.get_offset(0, 10, code), Some(5.into()));
         assert_eq!(index.get_offset(1, 10, code), Some(9.into()));
     }
+
+    #[test]
+    fn test_col_counts_utf16_code_units() {
+        // U+1F600 is one char, four UTF-8 bytes and two UTF-16 code units
+        let code = "--\u{1F600}好x\nx";
+        let index = LineIndex::parse(code);
+        assert_eq!(index.get_line_col(9.into(), code), Some((0, 5)));
+        assert_eq!(index.get_col(10.into(), code), Some(6));
+        assert_eq!(index.get_offset(0, 5, code), Some(9.into()));
+        assert_eq!(index.get_offset(0, 4, code), Some(6.into()));
+        // a col inside the surrogate pair resolves to the start of the char
+        assert_eq!(index.get_offset(0, 3, code), Some(2.into()));
+        assert_eq!(index.get_offset(0, 100, code), Some(10.into()));
+    }
 }
